@@ -32,3 +32,26 @@ PROPS = {
                        "of a known entropy source in all library function bodies.",
     },
 }
+
+# Reasons for every property that has no registered check (yet, or ever).  bin/mkmanifest lists exactly the ids
+# that are not in PROPS.
+NOT_APPLICABLE = {
+    "C01": "floating-point DFT identity with an error bound for every length: its truth lives in twiddle indices, recursion order and rounding, which no sound static argument in reach can bound (memory-safety of plan selection is decided under C05)",
+    "C02": "inversion identities are numerical; only the structural clause (validate n before any table is built, helper precondition entailed by live checks) is decidable and is claimed when its rule exists",
+    "C03": "element-wise values are numerical; the type-promotion table, length-guard dominance and value-semantics clauses are decidable and are claimed when their rules exist",
+    "C04": "index-resolution arithmetic against Python is a run-time quantifier; guard, aliasing, copy-agreement and noexcept clauses are decidable and are claimed when their rules exist",
+    "C05": "value-range safety of index arithmetic inside kernels and termination are not decidable from shape; guard-completeness clauses are claimed when their rules exist",
+    "C06": "invariance over all framings of a stream quantifies over run-time framings and sample values; the state hand-over arithmetic is not decidable from the shape of the code",
+    "C07": "numerical equality with a defining sum for all coefficient vectors and inputs",
+    "C08": "sample-exact agreement with the zero-stuff/filter/decimate chain depends on branch schedules and offsets computed at run time",
+    "C10": "recency order of eviction is a run-time history property; purity/key/pairing/capacity clauses are claimed when their rules exist",
+    "C11": "closed-form numerical masks and window formulas for all orders and parameters",
+    "C12": "convergence and the e = d - y arithmetic are numerical; lock dominance and a-priori ordering are claimed when their rule exists",
+    "C13": "power conservation and peak-versus-axis agreement are numerical/ordering facts of run-time arrays",
+    "C14": "analytic-signal and phase-accumulator identities are numerical; the admissible-frequency test clause is claimed when its rule exists",
+    "C15": "agreement with number theory is value-level; the no-wrap clause of the trial-division bound is claimed when its rule exists",
+    "C16": "sort/median correctness is value-level; the both-samples-influence clause is claimed when its rule exists",
+    "C17": "values of libm-based formulas at all finite inputs",
+    "C18": "index recovery from correlation peaks of random signals is a statistical/numerical property of run-time data",
+    "C20": "gain range, monotone smoothing and settling are numerical; integer-division and clamp-dominance clauses are claimed when their rules exist",
+}
